@@ -386,7 +386,12 @@ def _worker(args):
 
             env, last_key = Env(c["E"]), key
             apischema.cache.reset()
-        n += replay_cfg(sub, env, direction, c)
+        try:
+            n += replay_cfg(sub, env, direction, c)
+        except (RecursionError, Exception) as exc:     # the verdict is total: whatever the code raises is a mismatch
+            sub.violation(f"{'de' if direction == 'd' else ''}serialization / schema of {c['T']} under conversion "
+                          f"{[x['id'] for x in c['dyn']]} raised {type(exc).__name__}: {str(exc)[:200]}",
+                          {"E": c["E"], "T": c["T"], "dyn": c["dyn"], "plain": c["plain"]})
         if len(sub.violations) > 15:
             break
     return n, sub.violations, sub.cov.get("unspecified_union_without_alternative", 0)
